@@ -99,6 +99,15 @@ func lockCall(s ast.Stmt) (x ast.Expr, r bool, ok bool) {
 	if !isS {
 		return nil, false, false
 	}
+	// x.L.Lock() is a sync.Locker (the lock of a sync.Cond): no TryLock to
+	// probe with; treated like any other statement
+	if inner, ok := se.X.(*ast.SelectorExpr); ok && inner.Sel.Name == "L" {
+		return nil, false, false
+	}
+	if c2, ok := se.X.(*ast.CallExpr); ok {
+		_ = c2 // e.g. rw.RLocker().Lock(): a Locker as well
+		return nil, false, false
+	}
 	switch se.Sel.Name {
 	case "Lock":
 		return se.X, false, true
